@@ -53,6 +53,8 @@ type Conn struct {
 
 	// read side (touched only by the reading goroutine, and by Feed through the channel)
 	in          chan chunk
+	rmu         sync.Mutex
+	dropped     int64
 	pending     []byte
 	reads       []ReadRec
 	rdone       bool
@@ -94,9 +96,26 @@ func (c *Conn) Feed(b []byte) { c.put(chunk{data: append([]byte(nil), b...)}) }
 func (c *Conn) put(ch chunk) {
 	select {
 	case c.in <- ch:
+		return
+	default:
+	}
+	if atomic.LoadInt64(&c.dropped) > 0 {
+		atomic.AddInt64(&c.dropped, 1) // the reader was already found dead once: do not wait again
+		return
+	}
+	// queue full: the reader is slow or gone. Wait a bounded time, then drop (a scripted peer must never hang the harness).
+	t := time.NewTimer(3 * time.Second)
+	defer t.Stop()
+	select {
+	case c.in <- ch:
 	case <-c.closed:
+	case <-t.C:
+		atomic.AddInt64(&c.dropped, 1)
 	}
 }
+
+// Dropped reports how many fed chunks were abandoned because nobody read the connection for 3 s.
+func (c *Conn) Dropped() int64 { return atomic.LoadInt64(&c.dropped) }
 
 // FeedDelayed queues bytes that become readable only after d has passed once the reader reaches them.
 func (c *Conn) FeedDelayed(b []byte, d time.Duration) {
@@ -110,6 +129,10 @@ func (c *Conn) FeedEOF() { c.put(chunk{eof: true}) }
 func (c *Conn) FeedErr(err error) { c.put(chunk{err: err}) }
 
 func (c *Conn) Read(p []byte) (int, error) {
+	// read-side lock only (never touched by the write side): a broken library may start
+	// several readers on one connection, which a real socket tolerates
+	c.rmu.Lock()
+	defer c.rmu.Unlock()
 	if len(c.pending) == 0 {
 		if c.rdone {
 			return 0, c.rerr
